@@ -193,11 +193,34 @@ fn run_case(out: &mut Out, case: usize, src: &str, a: &[Lay], t: &Tr) {
             }
             observe(&bm, bx)
         } else { Value::Null };
-        (observe(&ba, bx), observe(&bb, bx), gm)
+        // the editor's overlay (Buffer::get_overlay_layer(i)) is an alpha layer drawn just above layer i: for an inserted alpha
+        // layer that lies inside the buffer, in a stack of Normal-mode layers, document A plus the overlay must show what the
+        // directly built stack B shows - also when the overlay was requested at another index before
+        let go = if !a.is_empty() && a.iter().all(|x| x.m == 0) {
+            let mut rr = rng(case as u64, 4242);
+            let k = rr.gen_range(1..=a.len());
+            // a sparse full-size alpha layer: as overlay above layer k - 1 of document A, and as a real layer inserted at k
+            let rows: Vec<Vec<Option<Cell>>> = (0..10).map(|_| (0..16).map(|_| if rr.gen_bool(0.35) { Some(rnd_cell(&mut rr)) } else { None }).collect()).collect();
+            let lp = Lay { o: (0, 0), s: (16, 10), m: 0, a: true, v: true, rows };
+            let mut bo = build(a);
+            if case % 2 == 0 { let _ = bo.get_overlay_layer(k % a.len()); }
+            if let Some(ov) = bo.get_overlay_layer(k - 1) {
+                for (y, row) in lp.rows.iter().enumerate() {
+                    for (x, c) in row.iter().enumerate() {
+                        if c.is_some() { ov.set_char((x as i32, y as i32), to_char(c)); }
+                    }
+                }
+            }
+            let mut with_layer = a.to_vec();
+            with_layer.insert(k, lp);
+            json!([observe(&bo, bx), observe(&build(&with_layer), bx), k])
+        } else { Value::Null };
+        (observe(&ba, bx), observe(&bb, bx), gm, go)
     });
     match r {
-        Ok((ga, gb, gm)) => {
+        Ok((ga, gb, gm, go)) => {
             let mut ev = json!({"ev":"law","case":case,"tr":tr_json(t),"A":stack_json(a),"B":stack_json(&b),"box":bx,"gA":ga,"gB":gb});
+            if !go.is_null() { ev["gO"] = go; }
             if !gm.is_null() { ev["gM"] = gm; ev["route"] = json!(route); ev["exp"] = json!(if route == 3 { "A" } else { "B" }); }
             out.ev(&ev)
         }
